@@ -184,7 +184,7 @@ Section Algo.
   Fixpoint perm_count (vals : list Z) (count : Z) (counted : list Z) : option (list Z) :=
     match vals with
     | [] => Some counted
-    | zj :: r => if count <=? zj then None
+    | zj :: r => if (zj <? 0) || (count <=? zj) then None     (* zj is a size_t: never negative in C *)
                  else perm_count r count (setn counted (Z.to_nat zj) (nth (Z.to_nat zj) counted 0 + 1))
     end.
   Definition is_perm (vals : list Z) : Z :=
